@@ -15,7 +15,8 @@
      ( n4 i err ) sub.done  ( n5 i ) sub.ctx   ( n6 i ) sub.unsub      ( n7 i err ) sub.drain
      ( n8 i ) sub.return    ( n9 i err ) Subscribe returned err (harness)
      ( n10 i ) harness is about to cancel subscriber i's context
-     ( n11 p topics idopt thread ) pub.enter   ( n12 p ) pub.sent      ( n13 p ) pub.closed
+     ( n11 p topics idopt thread ) pub.enter (topics, idopt: what the publisher gave the message)
+     ( n12 p ) pub.sent      ( n13 p ) pub.closed
      ( n14 p ) pub.return   ( n15 p err ) Publish returned err (harness)
      ( n16 h ) shut.enter   ( n17 h ) shut.close   ( n18 h ) shut.closed  ( n19 h ) shut.done
      ( n20 h ) shut.ctx     ( n21 h ) shut.return  ( n22 h err ) Shutdown returned err (harness)
@@ -28,8 +29,14 @@
      ( n39 i v ) the writer of i got Flush, answered v
      ( n40 p v id ) Replayer.Put of message p finished with verdict v, returned ID id
      ( n41 i ) Replayer.Replay for subscriber i starts
+     ( n42 p topics ) harness is about to call Publish for message p with these topics
    err / v: n0 = nil/ok, n1 = ErrProviderClosed, n2 = context error, n98 = replayer panic,
-   >= 100 scripted errors, n90.. real replayer errors. *)
+   >= 100 scripted errors (of any character: plain, Timeout(), wrapping a sentinel ...: all alike to the model),
+   n90.. real replayer errors.
+
+   scenario = ( meta replayer ... ), replayer = ( kind ... ): kind n4 = Joe has NO replayer.  joe.go then runs
+   its noopReplayer, whose calls are not observable: loop.put / loop.replayed arrive without a Put / Replay
+   record and stand for a Put / Replay that answered ok and made no call on the writer ([norep] below). *)
 From GoSse Require Import Base JoeLts.
 Local Open Scope nat_scope.
 
@@ -70,7 +77,7 @@ Definition pub_ret_is (s : state) (p : nat) (r : option nat) : bool :=
 Definition shut_ret_is (s : state) (h : nat) (r : option nat) : bool :=
   match h_pc (shut s h) with HRet r' => optnat_eqb r r' | _ => false end.
 
-Definition ev_step (closer : option nat) (c : chk) (e : val) : option chk :=
+Definition ev_step (norep : bool) (closer : option nat) (c : chk) (e : val) : option chk :=
   let s := fst c in
   let a := as_nat (nth_val 1 e) in
   let b := nth_val 2 e in
@@ -113,15 +120,21 @@ Definition ev_step (closer : option nat) (c : chk) (e : val) : option chk :=
   | 23 => do_step c (HCancel a)
   | 24 => do_step c LIdle
   | 25 => rendezvous c 25 12 a (PubSend a)
-  | 26 => bind (confirm c (match pc s with PutDone q v => Nat.eqb q a && verdict_eqb v (dec_verdict b) | _ => false end))
-            (fun c => do_step c (LPutRes a))
+  | 26 => bind (if norep then match pc s with GotMsg _ => do_step c (LPut a VOk) | _ => None end else Some c)
+            (fun c => bind (confirm c (match pc (fst c) with PutDone q v => Nat.eqb q a && verdict_eqb v (dec_verdict b) | _ => false end))
+                        (fun c => do_step c (LPutRes a)))
   | 27 => do_step c (LErrs a)
   | 28 => bind (confirm c (match pc s with Failing _ j e _ => Nat.eqb j a && Nat.eqb e (as_nat b) | _ => false end))
             (fun c => do_step c (LFail a))
   | 29 => do_step c (LRemove a)
   | 30 => do_step c (LRemoveSkip a)
   | 31 => rendezvous c 31 3 a (SubSend a)
-  | 32 => do_step c (LReplayed a (dec_verdict b))
+  | 32 => if norep
+          then match pc s with
+               | GotSub _ => bind (do_step c (LReplay a))
+                               (fun c => if is_ok (dec_verdict b) then do_step c (LReplayed a VOk) else None)
+               | _ => None end
+          else do_step c (LReplayed a (dec_verdict b))
   | 33 => bind (confirm c (match pc s with Rejecting j e => Nat.eqb j a && Nat.eqb e (as_nat b) | _ => false end))
             (fun c => do_step c (LReject a))
   | 34 => do_step c (LReg a)
@@ -135,8 +148,9 @@ Definition ev_step (closer : option nat) (c : chk) (e : val) : option chk :=
   | 39 => match pc s with
           | Replaying _ => do_step c (LRFlush a (dec_verdict b))
           | _ => do_step c (LFlush a (dec_verdict b)) end
-  | 40 => do_step c (LPut a (dec_verdict b))
-  | 41 => do_step c (LReplay a)
+  | 40 => if norep then None else do_step c (LPut a (dec_verdict b))
+  | 41 => if norep then None else do_step c (LReplay a)
+  | 42 => Some c
   | _ => None
   end.
 
@@ -147,11 +161,11 @@ Fixpoint find_closer (evs : list val) : option nat :=
   | e :: r => if Nat.eqb (as_nat (nth_val 0 e)) 18 then Some (as_nat (nth_val 1 e)) else find_closer r
   end.
 
-Fixpoint check_from (closer : option nat) (c : chk) (idx : nat) (evs : list val) : chk + (nat * val) :=
+Fixpoint check_from (norep : bool) (closer : option nat) (c : chk) (idx : nat) (evs : list val) : chk + (nat * val) :=
   match evs with
   | [] => inl c
-  | e :: r => match ev_step closer c e with
-              | Some c' => check_from closer c' (S idx) r
+  | e :: r => match ev_step norep closer c e with
+              | Some c' => check_from norep closer c' (S idx) r
               | None => inr (idx, e)
               end
   end.
@@ -159,13 +173,16 @@ Fixpoint check_from (closer : option nat) (c : chk) (idx : nat) (evs : list val)
 Definition obs_of (i : val) : val := nth_val 1 i.
 Definition status_of (i : val) : nat := as_nat (nth_val 0 (obs_of i)).
 Definition events_of (i : val) : list val := as_l (nth_val 1 (obs_of i)).
+(* the scenario's replayer kind *)
+Definition rep_kind_of (i : val) : nat := as_nat (nth_val 0 (nth_val 1 (nth_val 0 i))).
+Definition norep_of (i : val) : bool := Nat.eqb (rep_kind_of i) 4.
 
 Definition accepted : val := VN 1.
 
 (* trace inclusion.  A complete run must also leave no rendezvous half unconfirmed. *)
 Definition run_joe (i : val) : val :=
   let evs := events_of i in
-  match check_from (find_closer evs) (init, []) 0 evs with
+  match check_from (norep_of i) (find_closer evs) (init, []) 0 evs with
   | inr (idx, e) => VL [VN 0; vnat idx; e]
   | inl c =>
       match status_of i with
